@@ -203,6 +203,11 @@ def grid_text(rng, spec):
     for k in keys:
         v = spec.get(k, 1 if k.startswith('n_') else 0.0)
         lines.append('%s = %s' % (k, repr(v) if isinstance(v, float) else v))
+    if rng.random() < 0.5:
+        # the option lines in any order (grid_type, dim, ... behind or between the domain bounds): a grid file is a set of assignments
+        opts = [l for l in lines if ' = ' in l]
+        rng.shuffle(opts)
+        lines = ['# options in no particular order'] + opts[:len(opts) // 2] + ['', '# more'] + opts[len(opts) // 2:]
     return '\n'.join(lines) + '\n'
 
 
